@@ -76,3 +76,56 @@ package config
 //@   loop 21 invariant forall i int, j int :: 0 <= i && i < j && j < len(c.MuteTimeIntervals) ==> c.MuteTimeIntervals[i].Name != c.MuteTimeIntervals[j].Name
 //@   loop 21 invariant forall i int, j int :: 0 <= i && i < j && j <= rangeindex ==> c.TimeIntervals[i].Name != c.TimeIntervals[j].Name
 //@   loop 21 invariant forall i int, j int :: 0 <= i && i < len(c.MuteTimeIntervals) && 0 <= j && j <= rangeindex ==> c.MuteTimeIntervals[i].Name != c.TimeIntervals[j].Name
+
+// ---- C17: a rejected reload leaves the coordinator's configuration alone. A load error keeps the old configuration
+// and notifies nobody; subscribers are handed exactly the configuration that was loaded, in subscription order, and
+// the first failing subscriber stops the round and makes Reload fail; success is reported only when every
+// subscriber accepted. (What "in force" means beyond the coordinator - the running dispatcher, inhibitor, pipeline -
+// is decided by the subscriber in app/reloader.go, which is not under contract.)
+//@ func (*Coordinator).loadFromFile
+//@   props C17
+//@   requires c != nil
+//@   ensures [error-keeps-config] result != nil ==> c.config == old(c.config)
+//@   ensures [success-installs-loaded] result == nil ==> c.config == ret("config.LoadFile")
+//@   ensures [nothing-else] c.subscribers == old(c.subscribers)
+//@   noeffect config.LoadFile
+//@   assigns c.config
+//@ func (*Coordinator).notifySubscribers
+//@   props C17
+//@   requires c != nil
+//@   assumes forall i int :: 0 <= i && i < len(c.subscribers) ==> c.subscribers[i] != nil
+//@   at call dynamic:elem:field:subscribers assert [current-config-in-order] arg0 == c.config && count("dynamic:elem:field:subscribers") == rangeindex1 + 1
+//@   ensures [first-error-stops] called("dynamic:elem:field:subscribers") && ret("dynamic:elem:field:subscribers") != nil ==> result == ret("dynamic:elem:field:subscribers")
+//@   ensures [success-means-all-accepted] result == nil ==> count("dynamic:elem:field:subscribers") == len(c.subscribers) && (called("dynamic:elem:field:subscribers") ==> ret("dynamic:elem:field:subscribers") == nil)
+//@   loop 1 invariant rangeindex < len(c.subscribers) && count("dynamic:elem:field:subscribers") == rangeindex + 1 && (called("dynamic:elem:field:subscribers") ==> ret("dynamic:elem:field:subscribers") == nil)
+//@   noeffect dynamic:elem:field:subscribers
+//@ func (*Coordinator).Reload
+//@   props C17
+//@   nosafe
+//@   requires c != nil
+//@   ensures [load-error-changes-nothing] called("loadFromFile") && ret("loadFromFile") != nil ==> result != nil && c.config == old(c.config) && !called("notifySubscribers")
+//@   ensures [subscriber-error-reported] called("notifySubscribers") && ret("notifySubscribers") != nil ==> result == ret("notifySubscribers")
+//@   ensures [success-only-when-all-accepted] result == nil ==> called("loadFromFile") && ret("loadFromFile") == nil && called("notifySubscribers") && ret("notifySubscribers") == nil
+
+// ---- C17: secret masking at the marshalers of this repository's own secret types (the textual form served by the
+// status API is produced by yaml.Marshal, which calls these for every field of such a type). Unless the process-wide
+// debugging switch MarshalSecretValue is on, a non-empty secret prints as the fixed token and an empty one as nothing.
+// (prometheus/common's Secret type has its own marshaler, outside this repository; that every secret-bearing field
+// of the 18 integrations has one of these types is a reading of config/notifiers.go, not an obligation here.)
+//@ func (SecretTemplateURL).MarshalYAML
+//@   props C17
+//@   ensures [masked] !config.MarshalSecretValue ==> result1 == nil && (s != "" ? (typeis(result0, string) && unbox(result0, string) == "<secret>") : result0 == nil)
+//@   assigns nothing
+
+// ---- C17: the fields that carry credentials have a masking type. A type-level obligation (decided by go/types
+// over the loaded packages, one per field): every configuration field whose YAML name says password, secret, token,
+// api_key, service_key or user_key - other than the *_file variants, which hold a path - is declared with one of the
+// secret types, whose marshalers are under contract above / in config/common (prometheus/common's Secret marshals as
+// "<secret>" unless the debugging switch is on; that library type is trusted). So the textual form cannot contain
+// such a field's value. (URLs are secret only for some integrations and are not covered by this rule.)
+//@ structural secret-fields
+//@   props C17
+//@   in github.com/prometheus/alertmanager/config github.com/prometheus/alertmanager/notify/
+//@   fields (password|secret|token|api_key|service_key|user_key)
+//@   except _file$
+//@   types Secret SecretURL SecretTemplateURL
